@@ -92,19 +92,29 @@ pub fn run_case(case: &Value) -> CaseResult {
             let ev = &events[step - 1];
             let (add, tag) = if let Some(t) = ev.strip_prefix("add") { (true, t) } else { (false, ev.strip_prefix("del").unwrap_or("")) };
             let Some(i) = ADDRS.iter().position(|a| a.0 == tag) else { return CaseResult::machinery(format!("unknown event {ev}")) };
-            let r = if add { addr4_add(ADDRS[i].1, ADDRS[i].2) } else { addr4_del(ADDRS[i].1, ADDRS[i].2) };
-            if let Err(e) = r {
-                return CaseResult::machinery(format!("event {ev}: {e}"));
+            // (an event whose effect is already there -- Q went away together with P -- is a no-op)
+            if add != present[i] {
+                let r = if add { addr4_add(ADDRS[i].1, ADDRS[i].2) } else { addr4_del(ADDRS[i].1, ADDRS[i].2) };
+                if let Err(e) = r {
+                    return CaseResult::machinery(format!("event {ev}: {e}"));
+                }
             }
             present[i] = add;
-            // removing a primary address removes its secondaries with it unless promote_secondaries is
-            // set (it is not): Q goes when P goes
+            // removing a primary address removes its secondaries with it (promote_secondaries is
+            // switched off in the rig): Q goes when P goes
             if !add && i == 0 && present[1] {
                 present[1] = false;
             }
             w.pump(12);
         }
-        let current: Vec<Ipv4Addr> = ADDRS.iter().enumerate().filter(|(i, _)| present[*i]).map(|(_, a)| a.1).collect();
+        // what the interface has now: the kernel's own list, not the harness's idea of its events
+        let current: Vec<Ipv4Addr> = match kernel_ipv4_addrs() {
+            Ok(v) => v,
+            Err(e) => return CaseResult::machinery(e),
+        };
+        for (i, a) in ADDRS.iter().enumerate() {
+            present[i] = current.contains(&a.1);
+        }
         let sub = json!({"engine":"ewire","check":"c13","kind":"addr4-history","events":events[..step].to_vec()});
         let mk = |oracle: &str, what: String| Violation::new(oracle, format!("after the interface's IPv4 addresses changed at run time ({}; it now has {:?}): {what}", if step == 0 { "no change yet".to_string() } else { events[..step].join(", ") }, current), sub.clone()).sig("part", "wire-history").sig("oracle", oracle);
         // two clients per step, so that a second message meets the state the first one left
